@@ -587,11 +587,43 @@ def check_half_close(eng, run):
     run.floor("C03.eof eof_received implementations", n, 1)
 
 
+def check_send_eof_keeps_reading(eng, run):
+    """half-close is not close: no `send_eof()` of an endpoint / client / transport adapter closes the object it belongs to (directly
+    or through a private helper) - whatever the receive side has seen.  A send_eof() that releases the descriptor 'because both
+    directions are finished' turns the sticky end-of-stream of later reads into a closed-client error."""
+    from sa.norm import nodes_inl
+    n = 0
+    for fn in eng.db.all_functions():
+        if fn.name != "send_eof" or fn.cls is None or isinstance(fn.node, ast.Lambda) or not fn.module.name.startswith("easynetwork."):
+            continue
+        if fn.has_decorator("abstractmethod"):
+            continue
+        n += 1
+        closes = []
+        # what the class reads from: the receivers of its recv*/receive* calls (a stapled transport closes its *send* half, which it never reads)
+        read_from = {dotted(c.func.value) for m in fn.cls.methods.values() if not isinstance(m.node, ast.Lambda) for c in own_nodes(m.node)
+                     if isinstance(c, ast.Call) and isinstance(c.func, ast.Attribute) and c.func.attr.startswith(("recv", "receive"))} - {None}
+        for x, owner in nodes_inl(fn):
+            c = x.value if isinstance(x, ast.Await) and isinstance(x.value, ast.Call) else x
+            if isinstance(c, ast.Call):
+                nm = c.func.attr if isinstance(c.func, ast.Attribute) else getattr(c.func, "id", "")
+                if nm in ("close", "aclose", "aclose_forcefully", "abort", "_close_stream_socket"):
+                    target = dotted(c.func.value) if isinstance(c.func, ast.Attribute) and nm in ("close", "aclose", "abort") else (dotted(c.args[0]) if c.args else None)
+                    if target == owner.self_name or target in read_from:
+                        closes.append(c)
+        for c in closes[:1]:
+            run.finding("C03.eof", fn, _stmt_at(fn, c.lineno) if any(c is y for y in ast.walk(fn.node)) else fn.node, f"send_eof() runs `{ast.unparse(c)[:50]}`: closing the write half must leave the object open - "
+                        "after the peer's end-of-stream a later read would fail with a closed-object error instead of the sticky end-of-stream")
+        run.ob("C03.eof", f"{fn.cls.name}.send_eof:does-not-close", not closes)
+    run.floor("C03.eof send_eof implementations", n, 6)
+
+
 def run(eng, run):
     from sa.anchors import verify as _verify_anchor_names
     _verify_anchor_names(eng, run)
     run.not_decided += NOT_DECIDED
     run.attempt(check_half_close, eng, run)
+    run.attempt(check_send_eof_keeps_reading, eng, run)
     from rules import c15
     from sa.report import RuleAlias as _RA
     run.attempt(c15.check_own_closing_flag, eng, _RA(run, "C03.eof"))  # is_closing() must not turn true on a socket error: end-of-stream stays ECONNABORTED, it does not become "closed client"
